@@ -73,6 +73,8 @@ static void op_b(void)
 static int hits;
 static void hook(int id)
 {
+    /* lock discipline (race monitor): yield points 7 and 8 sit immediately before the registry list is modified */
+    if (id == 7 || id == 8) CHECK(env_lock_writer == 1, "registry list modified without holding the registry lock in write mode");
     if (in_b || fired || id != yield_at) return;
     if (++hits != OCC) return;          /* pre-empt at the OCC-th time this point is reached */
     fired = 1; in_b = 1;
